@@ -527,7 +527,9 @@ def gen_case(rng, profile="mixed"):
     specs, pool = g.members(0, nk, npool)
     t = g.tock
     limits = [0.0, t / 2, t, 2.5 * t, 3 * t, 0.3, 1.0, -2 * t, 7 * t, 12 * t]
-    if g.always or rng.random() < 0.5:
+    both = any(has_op(x, "extend") for x in specs + pool) and any(has_op(x, "remove") for x in specs + pool)
+    # remove + extend can re-enter a doer (its script starts again): only a limit guarantees termination then
+    if g.always or both or rng.random() < 0.5:
         limit = rng.choice(limits)
     else:
         limit = None
@@ -606,6 +608,8 @@ def case_valid(case):
         return False
     if limit is None and has_always(list(specs) + list(pool)):
         return False
+    if limit is None and any(has_op(x, "extend") for x in list(specs) + list(pool)) and any(has_op(x, "remove") for x in list(specs) + list(pool)):
+        return False
     for s, _, _ in all_specs(case):
         if s[0] == "leaf" and not shape_ok(s):
             return False
@@ -652,7 +656,7 @@ def mutate_case(rng, case):
             elif kind == "yield":
                 steps[k] = (ops, ("yield", rng.choice([0.0, tock, 2 * tock, 0.1])))
             else:
-                sibs = [i for i, p in pm.items() if p == pm[s[1]]]
+                sibs = [i for i, p in pm.items() if p == pm[s[1]] and i != s[1]] or [s[1]]
                 steps[k] = (ops + [("remove", [rng.choice(sibs) for _ in range(rng.choice([1, 2]))])], o)
             return ("leaf", s[1], "doify", s[3], steps)
         c2 = ("run", tock, start, limit, _map_leaves(pool, f), _map_leaves(specs, f))
@@ -907,3 +911,10 @@ def exhaustive_scope():
                 for limit in (None, 2.5):
                     cases.append(("run", 1.0, 0.0, limit, pool, sp2))
     return cases
+
+
+# known finding C01-K2 (only C01 runs it: the other oracles assume one live generator per doer)
+CORPUS_SELFRM = [
+    ("run", 1.0, 0.0, 6.0, [_lf(5, [([("remove", [5])], ("yield", 0.0)), _y(), _y(), _y(), _y()], "genrecur")],
+     [_lf(1, [([("extend", [0])], ("yield", 0.0)), _y(), ([("extend", [0])], ("yield", 0.0)), _y(), _y(), _y()])]),
+]
